@@ -86,6 +86,30 @@ class C06(Prop):
         yield 'structural', cases
         # the theorems are about the byte-exact generator model: its text is compared with the real files
         yield 'text', [dict(c, op='build', expect='any') for c in cases]
+        # a port type spelled by its simple name while an OUTER namespace (declared earlier in the file, as an imported
+        # file would be) has an interface of the same name: no unique declaration on the scope chain - no file set
+        amb = []
+        import copy as _copy
+        for c in cases[:max(20, len(cases) // 4)]:
+            info = self._infos.get(case_hash([c['src'], c['cfg']]))
+            if not info or not info['ports'] or not info['comp_ns']:
+                continue
+            d = _copy.deepcopy(c)
+            p0 = info['ports'][0]
+            itf_fq = p0['_itf']
+            comp = G.find_elem(d['src'], lambda e: e['k'] in ('component', 'system'))
+            comp['ports'][0]['type'] = [itf_fq[-1]]
+            for ns in ([], info['comp_ns'][:-1]):
+                if ns + [itf_fq[-1]] == itf_fq:
+                    continue
+                node = {'k': 'interface', 'name': [itf_fq[-1]], 'types': [], 'events': [
+                    {'name': 'Ping', 'reply': ['void'], 'formals': [], 'dir': 'in'}]}
+                for part in reversed(ns):
+                    node = {'k': 'namespace', 'name': [part], 'elems': [node]}
+                d['src'].insert(0, node)
+            d.update(op='build', expect='any', ast=M.enc_root(d['src']), fault='ambiguous-port-type-outer-first')
+            amb.append(d)
+        yield 'ambiguous-port-type', amb
 
     def impl(self, case):
         return G.build_impl(case)
